@@ -149,6 +149,12 @@ def fam_batch(w: World) -> None:
     deliver = [r for r in w.history if r['kind'] == 'wire.deliver']
     reply_text = deliver[-1]['text'] if deliver else None
     sent_doc = json.loads(st.net.sent[0])
+    _judge_batch(w, sent_doc, reply_text, strict, outcome, reqs, via, ctx)
+
+
+def _judge_batch(w: World, sent_doc: Any, reply_text: Any, strict: bool, outcome: Tuple[Any, ...], reqs: List[Any],
+                 via: str, ctx: Dict[str, Any]) -> None:
+    """One batch exchange against the reference matcher."""
     exp = RC.match_batch(sent_doc, reply_text, strict)
     v = exp['verdict']
     w.probe('verdict.' + v)
@@ -449,11 +455,71 @@ def systematic_single(tier: str) -> Iterable[List[int]]:
                     yield [f, nonstrict, ca, via]
 
 
-FAMILIES = {'match.batch': fam_batch, 'match.single': fam_single, 'match.reuse': fam_reuse, 'match.inline': fam_inline}
+def fam_concurrent(w: World) -> None:
+    """ONE kept batch wrapper (``b = client.batch``) with two or three explicit sends in flight at the same time on
+    the asynchronous client; every reply is permuted or loses / gains an entry on its own.  Each send is judged on its
+    own request and its own reply."""
+    import asyncio
+    ch = w.ch
+    n_sends = 2 + ch.draw(2, 'concurrent.n')
+    strict = not ch.flag(1, 4, 'nonstrict')
+    kept_wrapper = not ch.flag(1, 4, 'wrapper_per_send')
+    plans = []
+    for k in range(n_sends):
+        n = 1 + ch.draw(3, 'n_calls')
+        kind = ch.choice(['permute', 'permute', 'none', 'omit', 'extra', 'dup'], 'fault')
+        plans.append({'n': n, 'kind': kind, 'fault': _draw_fault(ch, kind, n),
+                      'ids': ch.shuffle(ID_POOL, 'ids')[:n] if not ch.flag(1, 2, 'same_ids') else list(ID_POOL[:n]),
+                      'start': ch.choice([0.0, 0.0, 0.125, 1.0], 'start'),
+                      'pre': ch.choice([0.0, 0.125, 1.0, 2.0], 'pre'), 'post': ch.choice([0.0, 0.125, 1.0, 2.0], 'post')})
+    w.scenario = {'sends': plans, 'strict': strict, 'kept_wrapper': kept_wrapper}
+    w.nontrivial = True
+    st = Stack(w, True, bool(ch.draw(2, 'server_async')), client_kwargs={'strict': strict})
+    wrapper = st.client.batch
+    breqs, outcomes = [], [None] * n_sends
+    for k, p in enumerate(plans):
+        reqs = [pjrpc.Request('echo', [f'q{k}_{j}', 10 * k + j], i) for j, i in enumerate(p['ids'])]
+        breqs.append((reqs, pjrpc.BatchRequest(*reqs)))
+        st.net.keyed_scripts[f'q{k}_0'] = [{'pre': p['pre'], 'post': p['post'], 'resp': p['fault'] or None}]
+
+    async def one(k: int) -> None:
+        await asyncio.sleep(plans[k]['start'])
+        b = wrapper if kept_wrapper else st.client.batch
+        try:
+            outcomes[k] = ('value', await b.send(breqs[k][1]))
+        except Exception as e:  # noqa: BLE001
+            outcomes[k] = ('raise', e)
+
+    async def main() -> None:
+        await asyncio.gather(*(one(k) for k in range(n_sends)))
+
+    assert st.loop is not None
+    st.loop.run_until_complete(main())
+    sends = [r for r in w.history if r['kind'] == 'wire.send']
+    delivers = {r['key']: r for r in w.history if r['kind'] == 'wire.deliver'}
+    if len(sends) >= 2 and any(r['kind'] == 'wire.deliver' and r['seq'] > sends[1]['seq'] and r['key'] == sends[0]['key']
+                               for r in w.history):
+        w.probe('sends_overlapped')
+    for k, p in enumerate(plans):
+        ctx = {'fault': p['kind'], 'strict': strict, 'via': 'send', 'client_async': True, 'kind': 'concurrent',
+               'n': p['n'], 'kept_wrapper': kept_wrapper, 'send_index': k}
+        d = delivers.get(f'q{k}_0')
+        sent = next((r for r in sends if r['key'] == f'q{k}_0'), None)
+        if sent is None or d is None:
+            w.violate('C08.accept', f'send {k} has no wire record', **ctx)
+            return
+        _judge_batch(w, json.loads(sent['text']), d['text'], strict, outcomes[k], breqs[k][0], 'send', ctx)
+        if w.violations:
+            return
+
+
+FAMILIES = {'match.concurrent': fam_concurrent, 'match.batch': fam_batch, 'match.single': fam_single, 'match.reuse': fam_reuse, 'match.inline': fam_inline}
 SYSTEMATIC = {'match.batch': systematic_batch, 'match.single': systematic_single}
 PLAN = {
-    'quick': {'match.batch': 80000, 'match.single': 32000, 'match.reuse': 16000, 'match.inline': 10000},
-    'thorough': {'match.batch': 80000, 'match.single': 30000, 'match.reuse': 30000, 'match.inline': 30000},
+    'quick': {'match.batch': 80000, 'match.single': 32000, 'match.reuse': 16000, 'match.inline': 10000,
+              'match.concurrent': 16000},
+    'thorough': {'match.batch': 80000, 'match.single': 30000, 'match.reuse': 30000, 'match.inline': 30000,
+                 'match.concurrent': 30000},
 }
 THOROUGH_BUDGET_S = 600
 RULE = ('systematic part: every combination of (number of calls, response-fault kind, strict flag, client kind, '
